@@ -18,24 +18,26 @@ PROVED in §8 (these were statistical validations only before):
     truncated / folded mechanisms its push-forwards (`laplace_truncated_folded_law`), and THE SAMPLER ITSELF is
     (ε, δ)-DP (`laplace_sampler_dp`, `laplace_truncated_folded_sampler_dp`: C02's inequality, now about the four uniforms);
   * `−log(1−U) ~ Exp(1)` as a push-forward (`exp_of_uniform_map`);
+  * four `Gamma(d/4)` draws times `scale` sum to `Gamma(d, rate 1/scale)` (`gamma_sum_law`, via the mgf
+    `(r/(r−t))^a` on `t < r`, `gamma_mgf_law`, and uniqueness of a finite measure from its mgf on a half-line);
   * acceptance–rejection over an i.i.d. stream (product measure on `ℕ → Ω`): the first accepted draw has the law of one
     draw conditioned on acceptance (`rejection_conditional_law`); instances: the conditioned Laplace law of
     `LaplaceBoundedDomain` (`boundedDomain_law`) and the discrete Gaussian pmf of the Canonne–Kamath–Steinke loop given
     the one-pass law `cksPassProb` (`discrete_gauss_loop_law`).
 
-NOT proved here (validated statistically by the harness, listed as `UNPROVED` in the evidence; each kept as a
-`def …_full : Prop` at the end of §8): that four `Gamma(d/4)` draws sum to `Gamma(d)` (`gamma_sum_full`: Mathlib has
-`gammaMeasure` but neither its convolution nor its characteristic function — the Gamma integral is only available for a
-REAL rate), that a normalised Gaussian vector is uniform on the sphere, that the passes of the model's `cksLoop` /
-`rejLoop` over an i.i.d. UNIFORM stream are i.i.d. with the one-pass law (`cks_passes_iid_full`: a renewal argument
-over a variable number of consumed uniforms; the batch layout of `rejLoop` is a fixed permutation of coordinates), and
-Bingham's rejection sampler.
+NOT proved here (validated statistically by the harness, listed as `UNPROVED` in the evidence): that a normalised
+Gaussian vector is uniform on the sphere; that the passes of the model's `cksLoop` over an i.i.d. UNIFORM stream are
+i.i.d. with the one-pass law (kept as `def cks_loop_law_full : Prop` at the end of §8: composition of the branch laws
+inside a pass + a renewal argument over a variable number of consumed uniforms); that the batch layout of `rejLoop`
+(a fixed permutation of coordinates) turns an i.i.d. uniform stream into an i.i.d. candidate stream; Snapping's released
+law; and Bingham's rejection sampler (open finding, §7).
 -/
 import DPL.Proofs.SamplersLaws
 import DPL.Proofs.SamplersBern
 import DPL.Proofs.SamplersGaussLaw
 import DPL.Proofs.SamplersLap4Law
 import DPL.Proofs.SamplersRejection
+import DPL.Proofs.SamplersGammaSum
 
 namespace DPL.C03
 open DPL DPL.Smp MeasureTheory Set
@@ -511,6 +513,29 @@ theorem laplace_truncated_folded_sampler_dp (eps delta sens lo hi x x' : ℝ) (h
   truncated_folded_inherit eps delta sens lo hi x x' _ _ unif01x4
     (fun S hS => laplace_sampler_dp eps delta sens x x' hs hd0 hd1 hpos hx S hS)
 
+open ProbabilityTheory in
+/-- moment generating function of Mathlib's `gammaMeasure a r` (shape `a`, rate `r`) on `t < r`: `(r/(r−t))^a` -/
+theorem gamma_mgf_law (a r t : ℝ) (ha : 0 < a) (hr : 0 < r) (ht : t < r) :
+    Integrable (fun x : ℝ => Real.exp (t * x)) (gammaMeasure a r) ∧
+    mgf id (gammaMeasure a r) t = (r / (r - t)) ^ a :=
+  ⟨gamma_integrable_exp a r t ha hr ht, gamma_mgf a r t ha hr ht⟩
+
+open ProbabilityTheory in
+/-- **Vector mechanism's norm**: four independent `gammavariate(d/4, scale)` draws (the model's `vecNorm scale` of four
+independent unit gammas `Gamma(d/4, rate 1)`) sum to `Gamma(d, rate 1/scale)`.  Proof: the mgf of the sum on
+`t < 1/scale` is the product of four (Fubini), `((1/(1−t·scale))^{d/4})⁴ = ((1/scale)/((1/scale)−t))^d`, and a finite
+measure on ℝ is determined by its mgf on a half-line `(−∞, ρ)`, `ρ > 0` (analytic continuation to the strip `Re z < ρ`,
+which contains the imaginary axis, then `Measure.ext_of_charFun`). -/
+theorem gamma_sum_law (d scale : ℝ) (hd : 0 < d) (hs : 0 < scale) :
+    ((gammaMeasure (d / 4) 1).prod ((gammaMeasure (d / 4) 1).prod ((gammaMeasure (d / 4) 1).prod
+        (gammaMeasure (d / 4) 1)))).map
+      (fun g : ℝ × ℝ × ℝ × ℝ => vecNorm scale [g.1, g.2.1, g.2.2.1, g.2.2.2])
+      = gammaMeasure d (1 / scale) :=
+  gamma_sum_map d scale hd hs
+
+/-- non-vacuity: `vecNorm` of four unit gammas at scale 2 -/
+example : vecNorm (2 : ℝ) [1, 1, 1, 1] = 8 := by norm_num [vecNorm]
+
 /-- **acceptance–rejection over an i.i.d. stream**: if the draws `ω 0, ω 1, …` are independent with law `P`, the first
 one that lies in the acceptance set `A` lies in `B` with probability `P(A ∩ B)/P(A)` — the law of one draw conditioned
 on acceptance.  (`rejection_first_accepted` says that the loop returns exactly that first accepted candidate.) -/
@@ -562,6 +587,29 @@ theorem discrete_gauss_loop_law {Ω : Type} [MeasurableSpace Ω] (P : Measure Ω
   exact firstAccepted_proportional P hA out hout (ENNReal.ofReal c) (by simpa using hcpos) ENNReal.ofReal_ne_top
     _ hw y
 
+/-- … and that quotient is a genuine probability: under the same hypotheses the normaliser `Σ_z e^{−z²/(2σ²)}` is
+finite (it is `P(A)/c ≤ 1/c`) and at least 1 (the term `z = 0`) -/
+theorem discrete_gauss_normaliser {Ω : Type} [MeasurableSpace Ω] (P : Measure Ω) [IsProbabilityMeasure P]
+    {A : Set Ω} (hA : MeasurableSet A) (out : Ω → ℤ) (hout : ∀ y, MeasurableSet (out ⁻¹' {y}))
+    (tau sigma2 : ℝ) (ht : 0 < tau) (hs : sigma2 ≠ 0)
+    (hpass : ∀ y : ℤ, P (A ∩ out ⁻¹' {y}) = ENNReal.ofReal (cksPassProb tau sigma2 y.natAbs)) :
+    (∑' z : ℤ, ENNReal.ofReal (Real.exp (-((z : ℝ) ^ 2 / (2 * sigma2))))) ≠ ⊤ ∧
+    1 ≤ ∑' z : ℤ, ENNReal.ofReal (Real.exp (-((z : ℝ) ^ 2 / (2 * sigma2)))) := by
+  set c : ℝ := (1 - Real.exp (-tau)) * (1 / 2) * Real.exp (-(tau ^ 2 * sigma2 / 2)) with hc
+  have hcpos : 0 < c := by
+    have : Real.exp (-tau) < 1 := by rw [Real.exp_lt_one_iff]; linarith
+    have : 0 < 1 - Real.exp (-tau) := by linarith
+    positivity
+  have hw : ∀ z : ℤ, P (A ∩ out ⁻¹' {z})
+      = ENNReal.ofReal c * ENNReal.ofReal (Real.exp (-((z : ℝ) ^ 2 / (2 * sigma2)))) := by
+    intro z
+    rw [hpass z, discrete_gauss_law tau sigma2 hs, ENNReal.ofReal_mul hcpos.le]
+    congr 3
+    rw [← Int.cast_natCast, Int.natCast_natAbs, Int.cast_abs, sq_abs]
+  refine ⟨proportional_normaliser_finite P hA out hout (ENNReal.ofReal c) (by simpa using hcpos) _ hw, ?_⟩
+  calc (1 : ENNReal) = ENNReal.ofReal (Real.exp (-(((0 : ℤ) : ℝ) ^ 2 / (2 * sigma2)))) := by simp
+    _ ≤ _ := ENNReal.le_tsum (f := fun z : ℤ => ENNReal.ofReal (Real.exp (-((z : ℝ) ^ 2 / (2 * sigma2))))) (0 : ℤ)
+
 /-- non-vacuity of `discrete_gauss_loop_law`'s one-pass hypothesis shape: at `y = 0` the pass probability is
 `(1−e^{−τ})·½·e^{−γ(0)}`, positive -/
 example : 0 < cksPassProb (1 : ℝ) 1 0 := by
@@ -572,31 +620,23 @@ example : 0 < cksPassProb (1 : ℝ) 1 0 := by
 
 /-! statements that remain unproved (validated statistically by the harness) -/
 
-open ProbabilityTheory in
-/-- Vector mechanism's norm: four independent `Gamma(d/4, 1)` draws times `scale` sum to `Gamma(d, rate 1/scale)`.
-MISSING: the characteristic function (or convolution) of `gammaMeasure`.  Mathlib's Gamma integral
-`Complex.integral_cpow_mul_exp_neg_mul_Ioi` is stated for a REAL rate only; the characteristic function needs the complex
-rate `r − it` (analytic continuation in the rate, or uniqueness from the real Laplace transform on a half-line via
-`eqOn_complexMGF_of_mgf`, which needs the mgf on all of ℝ incl. non-integrability for `t ≥ r`).  Everything after that
-(`integral_prod_mul`, `cpow_nat_mul`, `Measure.ext_of_charFun`) is as in `laplace4_law`. -/
-def gamma_sum_full : Prop :=
-  ∀ (d scale : ℝ), 0 < d → 0 < scale →
-    ((gammaMeasure (d / 4) 1).prod ((gammaMeasure (d / 4) 1).prod ((gammaMeasure (d / 4) 1).prod
-        (gammaMeasure (d / 4) 1)))).map
-      (fun g : ℝ × ℝ × ℝ × ℝ => vecNorm scale [g.1, g.2.1, g.2.2.1, g.2.2.2])
-      = gammaMeasure d (1 / scale)
-
-/-- the passes of the model's `cksLoop` over an i.i.d. uniform stream are i.i.d. with the one-pass law `cksPassProb`
-(the hypothesis `hpass` + independence of `discrete_gauss_loop_law`), stated as its consequence for the model.
+/-- the law of the model's `cksLoop` over an i.i.d. UNIFORM stream (rather than over an i.i.d. stream of passes, which is
+what `discrete_gauss_loop_law` assumes).  The model's inner loops carry fixed fuel (the Python loops are unbounded), so
+the statement allows for the event that an inner loop runs out of fuel: the probability of returning `y` is the
+discrete Gaussian's up to the probability of that abort.
 MISSING: (i) the composition of the branch laws inside one pass — `geomCount` is itself a loop of `bernNegExp` calls and
 `bernNegExp` recurses for γ > 1 — into `cksPassProb`; (ii) a renewal argument: a pass consumes a random, unbounded
 number of uniforms, so "the rest of the stream after a pass is again i.i.d. uniform and independent of the pass" has to
-be proved for the stopping position (strong Markov property of the product measure). -/
-def cks_passes_iid_full : Prop :=
+be proved for the stopping position (strong Markov property of the product measure).  The conditioning / geometric
+series step is `discrete_gauss_loop_law`. -/
+def cks_loop_law_full : Prop :=
   ∀ (scale : ℝ), 0 < scale → ∀ y : ℤ,
-    Measure.infinitePi (fun _ : ℕ => unif01)
-        {ω | ∃ N fuel, ∃ rest, cksLoop (cksTau scale) (cksSigma2 scale) fuel ((List.range N).map ω) = some (y, rest)}
-      = ENNReal.ofReal (Real.exp (-((y : ℝ) ^ 2 / (2 * cksSigma2 scale))))
-          / ∑' z : ℤ, ENNReal.ofReal (Real.exp (-((z : ℝ) ^ 2 / (2 * cksSigma2 scale))))
+    let μ := Measure.infinitePi (fun _ : ℕ => unif01)
+    let run := fun (ω : ℕ → ℝ) (N fuel : ℕ) => cksLoop (cksTau scale) (cksSigma2 scale) fuel ((List.range N).map ω)
+    let ret := {ω : ℕ → ℝ | ∃ N fuel rest, run ω N fuel = some (y, rest)}
+    let abort := {ω : ℕ → ℝ | ∀ N fuel, run ω N fuel = none}
+    let dG := ENNReal.ofReal (Real.exp (-((y : ℝ) ^ 2 / (2 * cksSigma2 scale))))
+      / ∑' z : ℤ, ENNReal.ofReal (Real.exp (-((z : ℝ) ^ 2 / (2 * cksSigma2 scale))))
+    μ ret ≤ dG ∧ dG ≤ μ ret + μ abort
 
 end DPL.C03
